@@ -11,6 +11,7 @@
 package bisweep
 
 import (
+	"sync"
 	"time"
 
 	"verif/internal/drive"
@@ -35,6 +36,9 @@ type Target interface {
 	SetOnApplied(fn func(a *fakeredis.App))
 	// SetOnRequest installs a callback invoked (under the target's lock) after every request.
 	SetOnRequest(fn func(r *fakeredis.Req))
+	// SetFault installs fault hooks (both called under the target's lock): inject answers a request
+	// without executing it; drop lets it execute and closes the connection instead of replying.
+	SetFault(inject func(r *fakeredis.Req) (fakeredis.Reply, bool), drop func(r *fakeredis.Req) bool)
 	// WaitIdle waits until every client connection is closed and what it had sent is processed.
 	WaitIdle(d time.Duration) bool
 	Close()
@@ -56,7 +60,13 @@ type TargetFactory func(o TargetOptions) Target
 // standalone is a single fakeredis server.  Business writes are logged, not executed (the
 // oracle works on the logs; arbitrary generated streams would otherwise fail on type clashes
 // no consistent replica could see); the reserved bookkeeping namespace is executed for real.
-type standalone struct{ srv *fakeredis.Server }
+type standalone struct {
+	srv    *fakeredis.Server
+	hmu    sync.Mutex
+	onReq  func(r *fakeredis.Req)
+	inject func(r *fakeredis.Req) (fakeredis.Reply, bool)
+	drop   func(r *fakeredis.Req) bool
+}
 
 // ForeignKey is the unrelated key pre-loaded when TargetOptions.ForeignDB is set.
 const ForeignKey = "foreign:app:key"
@@ -95,6 +105,17 @@ func (t *standalone) Requests() []fakeredis.Req              { return t.srv.Requ
 func (t *standalone) Applied() []fakeredis.App               { return t.srv.Applied() }
 func (t *standalone) Replay(apps []fakeredis.App)            { t.srv.Replay(apps) }
 func (t *standalone) SetOnApplied(fn func(a *fakeredis.App)) { t.srv.SetOnApplied(fn) }
-func (t *standalone) SetOnRequest(fn func(r *fakeredis.Req)) { t.srv.SetHooks(fn, nil, nil) }
-func (t *standalone) WaitIdle(d time.Duration) bool          { return t.srv.WaitNoConns(d) }
-func (t *standalone) Close()                                 { t.srv.Close() }
+func (t *standalone) SetOnRequest(fn func(r *fakeredis.Req)) {
+	t.hmu.Lock()
+	defer t.hmu.Unlock()
+	t.onReq = fn
+	t.srv.SetHooks(t.onReq, t.inject, t.drop)
+}
+func (t *standalone) SetFault(inject func(r *fakeredis.Req) (fakeredis.Reply, bool), drop func(r *fakeredis.Req) bool) {
+	t.hmu.Lock()
+	defer t.hmu.Unlock()
+	t.inject, t.drop = inject, drop
+	t.srv.SetHooks(t.onReq, t.inject, t.drop)
+}
+func (t *standalone) WaitIdle(d time.Duration) bool { return t.srv.WaitNoConns(d) }
+func (t *standalone) Close()                        { t.srv.Close() }
